@@ -18,7 +18,7 @@ import (
 
 func TestC06Release(t *testing.T) {
 	run := evid.Start("C06", "exploration")
-	budget := 100 * time.Second
+	budget := 200 * time.Second
 	if run.Thorough() {
 		budget = 20 * time.Minute
 	}
